@@ -469,7 +469,7 @@ def do_query(q, tier, seed, validate=True):
                 # as well, that one is tried first (confirmed natively = violation); otherwise the bound is too small
                 if any(x.get('status') == 'FAILURE' and classify(x, q.ob) == 'memsafety' for x in fails): unwind_deferred = r; continue
                 rec['reason'] = 'unwinding bound too small: ' + r.get('property', ''); return rec
-        has_failure = any(r.get('status') == 'FAILURE' and classify(r, q.ob) in ('assertion', 'memsafety') for r in fails)
+        has_failure = any(r.get('status') == 'FAILURE' and (classify(r, q.ob) in ('assertion', 'memsafety') or (classify(r, q.ob) == 'unwind' and q.ob.get('unwind_is_oracle'))) for r in fails)
         if all(w.get('status') == 'FAILURE' for w in wit):
             rec['witness'] = True
             wvals = nondet_values(wit[0].get('trace'))
